@@ -20,6 +20,8 @@ RULE = ('value-first: one (type, values) pair encoded twice (random: ListOffset/
 ASSUMPTIONS = ['NumPy strides and n-d NumpyArray encodings are exercised only through RegularArray equivalents',
                'concatenation and conversions to JSON/buffers are covered by C08/C15/C16',
                'operations are compared on values computed by the extracted to_list of the dumped results']
+UNION_RATE = 0.2
+UNION_STREAM = 0.15
 NUM = ['int64', 'int64', 'float64', 'int32', 'uint8', 'int16', 'float32', 'bool']
 
 
@@ -28,7 +30,9 @@ def one(rng, i):
     import props.c03 as c03
     op = rng.choice(['getitem', 'getitem', 'num', 'flatten', 'localindex', 'reduce', 'reduce', 'sort', 'argsort',
                      'combinations', 'rpad', 'rpadclip', 'fillna'])
-    kw = dict(allow_union=False)
+    # unions: no specification (skipped there), but the two encodings (shuffled/gappy index vs per-tag running index)
+    # must still agree with each other on the implementation
+    kw = dict(allow_union=rng.random() < UNION_RATE)
     special = True
     if op in ('reduce',):
         kw.update(allow_str=False, allow_rec=False, leaf_dtypes=c03.LEAVES)
@@ -38,8 +42,18 @@ def one(rng, i):
     if op == 'fillna':
         kw.update(allow_str=False, leaf_dtypes=NUM[:-1])
         special = False
+    type_ = None
+    ekw = dict(weird_empty=0.1, strided=0.1)
+    if rng.random() < UNION_STREAM and op not in ('reduce', 'sort', 'argsort', 'fillna'):
+        # union stream: a union node with list-type alternatives (so that the operation descends below the union), half of
+        # the time without unreachable elements in the alternatives (index = a permutation of each alternative)
+        tkw = dict(kw)
+        tkw.pop('allow_union', None)
+        type_ = G.gen_union_type(rng, rng.choice([2, 3, 3]), **tkw)
+        if rng.random() < 0.5:
+            ekw['junk'] = False
     a = G.gen_array(rng, depth=rng.choice([1, 2, 3, 3]), canonical_too=True, type_kw=kw, special=special,
-                    enc_kw=dict(weird_empty=0.1, strided=0.1))
+                    enc_kw=ekw, type_=type_)
     t = a['type']
     mn, mx = G.list_depth(t)
     sig = None
@@ -76,9 +90,50 @@ def one(rng, i):
     return [ra, ca]
 
 
-def cases(rng, tier):
-    n = 1000 if tier == 'quick' else 25000
+def replay_cases(path):
+    """cases of a replay / corpus file: pairs share the id up to the trailing r/c; the type is not recorded, so the
+    known-finding classifier falls back on the text of the layout"""
+    import re
     out = []
+    for ln in open(path):
+        ln = ln.strip()
+        if not ln or ln.startswith('#'):
+            continue
+        m = re.match(r'^\((\S+) (\S+) (.*)\)$', ln)
+        cid, op, rest = m.group(1), m.group(2), m.group(3)
+        head = rest.split(' (', 1)[0].split()
+        axis = None
+        try:
+            if op in ('num', 'flatten', 'localindex', 'combinations', 'rpad', 'rpadclip'):
+                axis = int(head[-1])
+            elif op == 'reduce':
+                axis = int(head[1])
+            elif op in ('sort', 'argsort'):
+                axis = int(head[0])
+        except (ValueError, IndexError):
+            pass
+        grp = cid[:-1] if cid[-1:] in 'rc' else cid
+        out.append(C.Case(cid, op, [rest], [], dict(nontrivial=True, type=None, group=grp, tags=dict(op=op, axis=axis))))
+    return out
+
+
+def corpus_cases():
+    import os
+    d = os.path.join(C.VERIF, 'corpus', 'C02')
+    out = []
+    if os.path.isdir(d):
+        for fn in sorted(os.listdir(d)):
+            if fn.endswith('.case'):
+                for c in replay_cases(os.path.join(d, fn)):
+                    c.id = 'corpus-%s-%s' % (fn[:-5], c.id)
+                    c.meta['group'] = 'corpus-%s-%s' % (fn[:-5], c.meta['group'])
+                    out.append(c)
+    return out
+
+
+def cases(rng, tier):
+    n = 8000 if tier == 'quick' else 200000
+    out = corpus_cases()
     for i in range(n):
         out.extend(one(rng, i))
     return out
@@ -92,8 +147,13 @@ def signature(c, impl, v):
              'argsort': 'c06', 'combinations': 'c07', 'rpad': 'c09', 'rpadclip': 'c09', 'fillna': 'c09'}[op]
     m = importlib.import_module('props.' + owner)
     tg = c.meta.get('tags', {})
-    if tg.get('axis') is not None and tg['axis'] < 0 and G.has_rec_under_list(c.meta['type']) and op != 'reduce':
-        return 'negaxis-record-under-list'
+    t = c.meta.get('type')
+    body = c.body()
+    if tg.get('axis') is not None and tg['axis'] < 0 and op != 'reduce':
+        if (G.has_rec_under_list(t) if t is not None else ('(rec ' in body and body.index('(rec ') > body.index(' (') + 2)):
+            return 'negaxis-record-under-list'
+        if (G.has_mixed_union_under_list(t) if t is not None else ('(un ' in body and body.index('(un ') > body.index(' (') + 2)):
+            return 'negaxis-mixed-union-under-list'
     return m.signature(c, impl, v) if hasattr(m, 'signature') else None
 
 
@@ -113,13 +173,13 @@ def run(cases, tier, rng):
             continue
         (c1, i1), (c2, i2) = lst
         npairs += 1
-        if c1.layouts[0] != c2.layouts[0]:
+        if c1.body() != c2.body():
             ndiff_text += 1
         v1, v2 = vals.get(c1.id), vals.get(c2.id)
         if i1.startswith('crash') or i2.startswith('crash') or i1.startswith('timeout') or i2.startswith('timeout'):
             continue            # reported by default_run
         if v1 != v2:
-            sig = signature(c1, i1, 'viol value')
+            sig = signature(c1, i1, 'viol value') or signature(c2, i2, 'viol value')
             known = check.match_known(check.KNOWN, 'C02', dict(signature=sig)) if sig else None
             if known is None:
                 ok = False
